@@ -541,8 +541,9 @@ Fixpoint rep_parser {A : Type} (n : nat) (p : parser A) : parser (list A) :=
   | S n' => bind p (fun a => bind (rep_parser n' p) (fun r => ret (a :: r)))
   end.
 
-Definition qm_decode : parser qmfile :=
-  bind (dec_header QM_PREFIX qm_jd) (fun vh =>
+(* from_file with the header dictionary parsed by `jd` *)
+Definition qm_decode_with (jd : bytes -> option qmhdr) : parser qmfile :=
+  bind (dec_header QM_PREFIX jd) (fun vh =>
     let v := fst vh in let h := snd vh in
     if vlt QM_REJECT_ABOVE v then fail else
     let w := dwidth (q_dtype h) in
@@ -554,6 +555,8 @@ Definition qm_decode : parser qmfile :=
     bind (if q_vars h then bind (dec_tsection MAGIC_VARS NLEN_VARS labels_dec) (fun l => ret (Some l))
           else ret None) (fun labs =>
     ret (mkQmFile (q_dtype h) (q_m h) (map (dec_vinfo w) vi) off lin neig labs))))))).
+
+Definition qm_decode : parser qmfile := qm_decode_with qm_jd.
 
 (* ---------------------------------------------------------------- expression members of a CQM zip *)
 
